@@ -35,8 +35,18 @@ class Bak:
         self.n = 0
 
     # ---- the script ----
-    def run_script(self, mode, stream, idx=0):
-        """mode: 'normal' | 'coalesce' | 'files' | 'files-f'.  Returns dict(rc, out, err, files)"""
+    def run_script(self, mode, stream, idx=0, stale=None):
+        """mode: 'normal' | 'coalesce' | 'files' | 'files-f'.  Returns dict(rc, out, err, files).
+        In mode 'files' the script is run twice: into a fresh directory and into one where every other host of the first
+        result already has a file from an earlier run; the second result is returned if the two differ (a per-host file
+        holds exactly that host's lines, whatever was there before)."""
+        if mode == "files" and stale is None:
+            first = self.run_script(mode, stream, idx, stale=())
+            names = sorted(first["files"] or {})
+            if first["rc"] != 0 or not names:
+                return first
+            second = self.run_script(mode, stream, idx, stale=names[::2])
+            return first if second["files"] == first["files"] and second["rc"] == first["rc"] else second
         env = {"PATH": "/usr/bin:/bin", "LANG": "C", "LC_ALL": "C", "HOME": "/root"}
         args = ["perl", SCRIPT]
         d = None
@@ -47,6 +57,12 @@ class Bak:
             if mode == "files-f":
                 d = os.path.join(d, "new", "dir")
                 args += ["-f"]
+            for fn in (stale or ()):
+                try:
+                    with open(os.path.join(os.fsencode(d), fn), "wb") as f:
+                        f.write(b"left over from an earlier run\n")
+                except OSError:
+                    pass
             args += ["-d", d]
         try:
             p = subprocess.run(args, input=stream, stdout=subprocess.PIPE, stderr=subprocess.PIPE, env=env, timeout=60)
